@@ -31,6 +31,7 @@ func StrSetEq(xs, ys []string) bool                 { panic("symbolic only") }
 func StrLt(a, b string) bool                        { panic("symbolic only") }
 func StrContains(s, sub string) bool                { panic("symbolic only") }
 func StrHasPrefix(s, p string) bool                 { panic("symbolic only") }
+func StrEqualFold(a, b string) bool                 { panic("symbolic only") }
 func StrPlain(s string) bool                        { panic("symbolic only") }
 func MapOrderAll(on bool)                           { panic("symbolic only") }
 func Panics(f func()) bool                          { panic("symbolic only") }
@@ -52,3 +53,29 @@ func CrashDuring(f func()) bool                     { panic("symbolic only") }
 func CrashIterations() int                          { panic("symbolic only") }
 func FSDirN(i int) string                           { panic("symbolic only") }
 func CrashDuringK(i int, f func()) bool             { panic("symbolic only") }
+
+// J is a JSON value tree as seen by harnesses (Kind: 0 null, 1 bool, 2 number, 3 string, 4 array, 5 object).
+type J struct {
+	Kind  int
+	S     string
+	N     int
+	B     bool
+	Items []*J
+	Keys  []string
+}
+
+// Stream is an abstract io.WriteCloser / io.ReadSeeker carrying one JSON value tree or text lines.
+type Stream struct{ _ int }
+
+func NewStream() *Stream                         { panic("symbolic only") }
+func NewJSONStream(j *J) *Stream                 { panic("symbolic only") }
+func NewTextStream(lines ...string) *Stream      { panic("symbolic only") }
+func (s *Stream) Write(p []byte) (int, error)    { panic("symbolic only") }
+func (s *Stream) Close() error                   { panic("symbolic only") }
+func (s *Stream) Read(p []byte) (int, error)     { panic("symbolic only") }
+func (s *Stream) Seek(o int64, w int) (int64, error) { panic("symbolic only") }
+func (s *Stream) Rewind()                        { panic("symbolic only") }
+func (s *Stream) AtStart() bool                  { panic("symbolic only") }
+func (s *Stream) FailSeek(on bool)               { panic("symbolic only") }
+func (s *Stream) Tree() *J                       { panic("symbolic only") }
+func (s *Stream) Wrote() bool                    { panic("symbolic only") }
